@@ -671,3 +671,14 @@ package tmi
 //@   property C09
 //@   requires req.PH.ProposerPubKey != nil && req.Resp != nil
 //@   modifies memory except Kernel
+
+// ---- the state machine announces the round it enters (C09): answered for every round it can announce ----
+// A failing committed-header store is outside C09 (input messages and schedules): the load is taken to succeed.
+//@ iface tmstore.CommittedHeaderStore.LoadCommittedHeader(st, ctx, height)
+//@   ensures load-succeeds: result1 == nil
+//@   modifies nothing
+//@ func Kernel.handleStateMachineRoundEntrance
+//@   property C09
+//@   requires re.Response != nil && k.hStore != nil
+//@   requires s.Voting.Round < MAXU32 && s.Voting.Height >= 1 && (s.Voting.Height == s.Committing.Height + 1 || s.Committing.Height == 0)
+//@   modifies memory except Kernel
